@@ -63,7 +63,7 @@ func Verify[H Header[H]](trstd, untrstd H) error {
 	}
 	// if that's an error, ensure we always return VerifyError
 	var verErr *VerifyError
-	if errors.As(err, &verErr) {
+	if errors.As(err, &verErr) && verErr != nil {
 		// work on a copy: the value belongs to the header implementation, which may return the very
 		// same one next time, and it must not stay marked as soft then
 		cp := *verErr
